@@ -717,3 +717,69 @@ func wgAsImplementedMatches(m *gen.Model) (matches, w2 bool) {
 	}
 	return true, w2
 }
+
+// ---- bounded exhaustive enumeration of a small universe ---------------------------------------
+//
+// Universe: terminal type user; object type doc with the tupleset relation p: [doc] and two relations
+// a and b, each defined by one of 8 leaf forms or a binary operator over two leaf forms:
+//   this with [user] / [user:*] / [doc#a] / [user, doc#b], computed a, computed b, a from p, b from p
+// (8 + 3*8*8 = 200 definitions per relation, 40 000 models). Every model is checked under ALL
+// depth-first start orders of its non-terminal nodes.
+
+type smallLeaf struct {
+	rw    *gen.Rewrite
+	restr []gen.Restriction
+}
+
+func smallLeaves() []smallLeaf {
+	th := func(r ...gen.Restriction) smallLeaf { return smallLeaf{&gen.Rewrite{Kind: gen.This}, r} }
+	return []smallLeaf{
+		th(gen.Restriction{Type: "user"}),
+		th(gen.Restriction{Type: "user", Wild: true}),
+		th(gen.Restriction{Type: "doc", Rel: "a"}),
+		th(gen.Restriction{Type: "user"}, gen.Restriction{Type: "doc", Rel: "b"}),
+		{&gen.Rewrite{Kind: gen.Computed, Rel: "a"}, nil},
+		{&gen.Rewrite{Kind: gen.Computed, Rel: "b"}, nil},
+		{&gen.Rewrite{Kind: gen.TTU, Rel: "a", Tupleset: "p"}, nil},
+		{&gen.Rewrite{Kind: gen.TTU, Rel: "b", Tupleset: "p"}, nil},
+	}
+}
+
+type smallDef struct {
+	rw    *gen.Rewrite
+	restr []gen.Restriction
+}
+
+func smallDefs() []smallDef {
+	ls := smallLeaves()
+	var out []smallDef
+	for _, l := range ls {
+		out = append(out, smallDef{l.rw, l.restr})
+	}
+	for _, k := range []string{gen.Union, gen.Intersection, gen.Difference} {
+		for _, x := range ls {
+			for _, y := range ls {
+				// a relation has one restriction list: when both operands are direct assignments they share x's
+				restr := x.restr
+				if restr == nil {
+					restr = y.restr
+				}
+				out = append(out, smallDef{&gen.Rewrite{Kind: k, Kids: []*gen.Rewrite{x.rw.Clone(), y.rw.Clone()}}, restr})
+			}
+		}
+	}
+	return out
+}
+
+// wgSmallModel returns model number idx of the small universe (0 <= idx < wgSmallCount()).
+func wgSmallModel(defs []smallDef, idx int) *gen.Model {
+	da, db := defs[idx/len(defs)], defs[idx%len(defs)]
+	return &gen.Model{Schema: "1.1", Types: []gen.TypeDef{
+		{Name: "user"},
+		{Name: "doc", Rels: []gen.Relation{
+			{Name: "p", Rw: &gen.Rewrite{Kind: gen.This}, Restr: []gen.Restriction{{Type: "doc"}}},
+			{Name: "a", Rw: da.rw.Clone(), Restr: append([]gen.Restriction(nil), da.restr...)},
+			{Name: "b", Rw: db.rw.Clone(), Restr: append([]gen.Restriction(nil), db.restr...)},
+		}},
+	}}
+}
